@@ -122,6 +122,18 @@ def _geq(a, b, path, out, seen):
         if ca is not cb:
             out.append((path + ' class %s vs %s' % (ca.__name__, cb.__name__), z3.BoolVal(False)))
             return
+        import attr as _attr
+        if not _attr.has(ca) and I.custom_dunder(ca, '__eq__') is None and not issubclass(ca, BaseException) \
+                and ca.__module__.startswith('cryptoparser'):
+            # a plain class without __eq__: Python compares identities
+            out.append((path + ' (%s defines no __eq__: objects are equal only if identical)' % ca.__name__,
+                        z3.BoolVal(a is b)))
+            return
+        d = I.custom_dunder(ca, '__eq__')
+        if d is not None and not issubclass(ca, BaseException):
+            r = I.call(d, [a, b], {})
+            out.append((path + ' (__eq__)', ops.bool_expr(r) if not isinstance(r, bool) else z3.BoolVal(r)))
+            return
         fa = a.f if isinstance(a, SObj) else (I.lift_native(a) if hasattr(ca, '__attrs_attrs__') else vars(a))
         fb = b.f if isinstance(b, SObj) else (I.lift_native(b) if hasattr(cb, '__attrs_attrs__') else vars(b))
         import attr
